@@ -316,6 +316,8 @@ pub struct HistCfg {
     pub judge_c01: bool,
     pub judge_c02: bool,
     pub keep_world: bool,
+    /// C06 on ordinary histories: a delivery that reports failure must leave every group unchanged
+    pub check_refusals: bool,
 }
 
 pub fn run_history(rng: &mut Rng, cfg: &HistCfg, dir: &Path, tag: &str) -> HistResult {
@@ -469,8 +471,24 @@ pub fn run_history(rng: &mut Rng, cfg: &HistCfg, dir: &Path, tag: &str) -> HistR
             idx = od;
         }
         let auto_mode = if rng.chance(sim.immediate_pct) { OwnMode::Immediate } else { OwnMode::Echo };
+        let snap_before = if cfg.check_refusals { Some(crate::props::c06::client_snapshot(&w, m)) } else { None };
         let d = w.deliver(m, idx, auto_mode);
         schedule.push(Step::Deliver { m, idx });
+        if let Some(b) = snap_before
+            && is_refusal(&d.class)
+        {
+            mon.count("c06_history_refusals_checked");
+            mon.note("c06_history_refusal_kinds", format!("{:?}:{}", w.log[idx].kind, d.class));
+            let a = crate::props::c06::client_snapshot(&w, m);
+            if let Some((which, parts)) = crate::props::c06::snapshot_diff(&b, &a) {
+                let pred = if !d.rollbacks.is_empty() { "rolled-back-then-refused" } else if w.log[idx].kind == PubKind::Proposal && parts == vec!["PEND"] { "proposal-queued-then-refused" } else { "no-rollback" };
+                mon.find(
+                    "C06",
+                    if pred == "rolled-back-then-refused" { format!("C06|refused-but-changed|history:{:?}|{pred}", w.log[idx].kind) } else { format!("C06|refused-but-changed|history:{:?}|parts={}|{pred}|result={}", w.log[idx].kind, parts.join("+"), d.class) },
+                    format!("c{m} answered e{idx} ({:?} by m{}: {}) with {} but {which} changed in {:?}", w.log[idx].kind, w.log[idx].author, w.log[idx].what, d.class, parts),
+                );
+            }
+        }
         rollbacks += d.rollbacks.len();
         if let Some(p) = &d.panicked {
             mon.find("C06", "C06|panic|history".into(), format!("process_message panicked: {p}"));
